@@ -68,23 +68,31 @@ def GChain.toChain? : GChain → Option Chain
   | .parallel m :: r => (GChain.toChain? r).map (Trafo.parallel m :: ·)
   | .linear .. :: _ => none
 
+/-- what a transformation does to ONE channel `c`: the argument and the result say whether the channel is
+present (`none` = absent) and what its value is (`some none` = NaN).  Offset, scaling and parallel-channel
+transformations act channel by channel. -/
+def Trafo.chanF (T : Trafo) (c : Chan) (x : Option (Option Rat)) : Option (Option Rat) :=
+  match T with
+  | .offset m => match m.lookup c with
+      | some o => x.map (fun v => v.map (· + o))
+      | none => x
+  | .scaling m => match m.lookup c with
+      | some k => x.map (fun v => v.map (· * k))
+      | none => x
+  | .parallel m => match m.lookup c with
+      | some o => some (some o)
+      | none => x
+
+def Chain.chanF (T : Chain) (c : Chan) (x : Option (Option Rat)) : Option (Option Rat) :=
+  T.foldl (fun y t => Trafo.chanF t c y) x
+
 /-- channel-value function: `none` = channel absent, `some none` = NaN -/
 abbrev Vals := Chan → Option (Option Rat)
 
-/-- a transformation applied to a channel-value function -/
-def Trafo.applyF (T : Trafo) (f : Vals) : Vals := fun c =>
-  match T with
-  | .offset m => match m.lookup c with
-      | some o => (f c).map (fun v => v.map (· + o))
-      | none => f c
-  | .scaling m => match m.lookup c with
-      | some k => (f c).map (fun v => v.map (· * k))
-      | none => f c
-  | .parallel m => match m.lookup c with
-      | some o => some (some o)
-      | none => f c
+/-- a transformation applied pointwise to a channel-value function -/
+def Trafo.applyF (T : Trafo) (f : Vals) : Vals := fun c => Trafo.chanF T c (f c)
 
-def Chain.applyF (T : Chain) (f : Vals) : Vals := T.foldl (fun g t => Trafo.applyF t g) f
+def Chain.applyF (T : Chain) (f : Vals) : Vals := fun c => Chain.chanF T c (f c)
 
 /-- the function a dictionary stands for -/
 def Vec.toVals (d : Vec) : Vals := fun c => d.lookup c
